@@ -3,7 +3,7 @@ SPECIFICATION GenSpec
 CONSTANTS
   NB = 1
   MaxRogue = 2
-  RogueKinds = {"wrongId", "emptyId", "staleId", "garbage", "close", "stall"}
+  RogueKinds = {"wrongId", "emptyId", "staleId", "badGreeting", "garbage", "close", "stall"}
   MaxMsgs = 0
   Mode = "standard"
   MaxEnv = 4
